@@ -203,6 +203,23 @@ oracle = DESIGN.md Appendix B (transcribed from the rustdoc on the wire fields)"
     ];
     ctx.floor_evaluations = 300_000;
     let seed = ctx.seed;
+    // First of all, before the process has looked any alarm up: the codes 0..=1023 in ascending
+    // order, each handed to four worker threads at once (a definition table that is built or
+    // extended on first sight of a code is built under contention).
+    crate::ev::par_cases_pristine(ctx, 1024 * 4, |i, obs| {
+        let code = (i / 4) as u16;
+        obs.case(mix(1230, i));
+        match mon::catch(|| get_alarm_message(code).map(|d| d.code())) {
+            Ok(Some(c)) if code <= 800 && c == code => obs.count("alarm_definitions_carry_their_code_on_first_sight", 1),
+            Ok(None) if code > 800 => obs.count("alarm_codes_above_800_undefined", 1),
+            Ok(other) => obs.violation(
+                if code > 800 { "alarm lookup defines a code above 800" } else if other.is_none() { "alarm lookup has no definition for a code in 0..=800" } else { "alarm definition carries another code" },
+                format!("lookup({}) -> {:?} (codes in ascending order on all worker threads at once)", code, other),
+                json!({"code": code, "phase": "first sight"}),
+            ),
+            Err(p) => obs.violation(format!("get_alarm_message {}", p.signature()), p.message, json!({"code": code})),
+        }
+    });
     let mut rng = Rng::derive(seed, 12, 0);
 
     // ---- layout --------------------------------------------------------------------------------------
